@@ -162,6 +162,14 @@ def frame_oracle(verb, lb, done, pre_gs):
     if kind in ("Delete", "Change", "Yank"):
         if not others_same:
             return "a register other than the addressed one changed"
+        if lb.get("mk") == "Null":
+            # the motion failed: nothing is removed or covered, so nothing is stored (fix 1ed8bc1; before, the
+            # register was emptied, which this oracle let pass)
+            if post != pre:
+                return "a command whose motion failed changed the text"
+            if pre_regs.get(rn) != post_regs.get(rn):
+                return "a command whose motion failed changed its register"
+            return None
         if not valid_reg:
             return None
         newc = post_regs.get(rn, ["span", ""])
